@@ -8,8 +8,11 @@
 (* are NOT adjacent and a coalesced store keeps them separate).            *)
 (*                                                                         *)
 (* A temporal database T is a set of <<atom, <<lo, hi>>>> (closed, NEG/POS *)
-(* unbounded).  A temporal rule has ONE body literal:                      *)
-(*   [h, ht, op, w, atom, ann]                                             *)
+(* unbounded).  A temporal rule has one body literal, optionally a second  *)
+(* one (field lit2 = [op, w, atom, ann]) that is solved under the          *)
+(* substitutions of the first - annotation variables that already have a   *)
+(* value must then EQUAL the stored bound (unification):                   *)
+(*   [h, ht, op, w, atom, ann (, lit2)]                                    *)
 (*   op  in {"none","dm","bm","dp","bp"}  (diamond/box, minus/plus)        *)
 (*   w   = <<a, b>> window in units, a <= b                                *)
 (*   ann = <<"none">> | <<"vars", S, E>> | <<"var1", T>>                   *)
@@ -22,21 +25,27 @@ Window(op, w, now) == IF op \in {"dm", "bm"} THEN <<now - w[2], now - w[1]>> ELS
 Intersects(iv, win) == iv[1] <= win[2] /\ win[1] <= iv[2]
 Covers(iv, win) == iv[1] <= win[1] /\ win[2] <= iv[2]
 
-\* substitutions produced by one temporal literal over T
-TLitSols(r, T, now) ==
+\* binding an annotation variable: a fresh variable is bound, a bound one must agree (0 or 1 substitution)
+Bind(S, v, val) == {Ext(s, v, val) : s \in {t \in S : v \notin DOMAIN t \/ t[v] = val}}
+\* substitutions produced by one temporal literal over T, extending s0
+LitSols(r, T, now, s0) ==
   LET cands == {x \in T : x[1].p = r.atom.p /\ Len(x[1].a) = Len(r.atom.a)} IN
   UNION { LET iv == x[2]
-              base == MatchFrom(r.atom.a, x[1].a, NoSub, 1)
+              base == MatchFrom(r.atom.a, x[1].a, s0, 1)
               okOp == CASE r.op = "none" -> TRUE
                         [] r.op \in {"dm", "dp"} -> Intersects(iv, Window(r.op, r.w, now))
                         [] r.op \in {"bm", "bp"} -> Covers(iv, Window(r.op, r.w, now))
               okAnn == r.ann[1] # "var1" \/ iv[1] = iv[2]      \* @[T] names a point interval
           IN IF okOp /\ okAnn
-             THEN {CASE r.ann[1] = "vars" -> Ext(Ext(s, r.ann[2], Tm(iv[1])), r.ann[3], Tm(iv[2]))
-                     [] r.ann[1] = "var1" -> Ext(s, r.ann[2], Tm(iv[1]))
-                     [] OTHER -> s : s \in base}
+             THEN CASE r.ann[1] = "vars" -> Bind(Bind(base, r.ann[2], Tm(iv[1])), r.ann[3], Tm(iv[2]))
+                    [] r.ann[1] = "var1" -> Bind(base, r.ann[2], Tm(iv[1]))
+                    [] OTHER -> base
              ELSE {}
         : x \in cands }
+HasLit2(r) == "lit2" \in DOMAIN r
+TLitSols(r, T, now) ==
+  IF HasLit2(r) THEN UNION {LitSols(r.lit2, T, now, s) : s \in LitSols(r, T, now, NoSub)}
+  ELSE LitSols(r, T, now, NoSub)
 
 HeadInterval(r, s, now) ==
   CASE r.ht[1] = "now"   -> <<now, now>>
